@@ -43,6 +43,7 @@ def run(ctx):
     cur = [b""]
     with toycrypto.toy(rng_script=lambda n: (cur[0] + bytes(n))[:n]) as log:
         for i in range(N):
+            log.reset_budget()          # the KDF budget is per case (it exists to stop a runaway derivation, not to ration the run)
             hn = rng.choice(HASHES)
             mode = rng.choice(["nonce", "DH", "ECDH_P256", "ECDH_P384", "ECDH_P521x", "other"])
             l2 = gen.rand_bytes(rng, rng.choice([64, 64, 64, 0, 1, 63]))
